@@ -278,6 +278,14 @@ var bodyFiles = map[string]*facts.BodyFile{
 				}},
 		},
 	},
+	// C08: driver/netconf/read.go
+	"BodiesStore.lean": {
+		Namespace: "Scrapli.Gen.Bodies.Store",
+		Fns: []*facts.FnSpec{
+			{Dir: "driver/netconf", Name: "getID", Lean: "getID",
+				Doc: "`match` = what `FindSubmatch` returned (nil = no match)."},
+		},
+	},
 	// C15: transport/telnet.go
 	"BodiesTelnet.lean": {
 		Imports:   []string{"ScrapliModel.Telnet"},
